@@ -24,6 +24,8 @@ pub struct SimCfg {
     pub regime: Regime,
     /// run the monitors (false in forks that only need the real engine's observations)
     pub monitors: bool,
+    /// evaluate the adjoint-magnitude guard at passes even when the monitors are off
+    pub guard_mag: bool,
 }
 
 #[derive(Clone, Debug)]
@@ -110,6 +112,22 @@ pub struct Counters {
     pub stale_reads: u64,
 }
 
+pub fn status_code(out: &StepOut) -> u8 {
+    match out {
+        StepOut::Done => 1,
+        StepOut::Dead => 3,
+        StepOut::Skipped(why) => {
+            if why.contains("guard") || why.contains("kink") || why.contains("non-finite") {
+                4
+            } else if why.contains("refused") || why.contains("conform") {
+                5
+            } else {
+                2
+            }
+        }
+    }
+}
+
 pub enum StepOut {
     Done,
     Skipped(&'static str),
@@ -152,13 +170,18 @@ pub struct Sim {
     /// nodes that are live model parameters seen through an observer's handle: other actors are
     /// read-only with respect to their gradient cell (no pass from them, no clear, no tracking)
     pub protected: BTreeSet<usize>,
+    /// per event: 1 done, 2 skipped (precondition), 3 dead, 4 skipped by a harness guard, 5 refused / nonconforming in corgi
+    pub status_log: Vec<u8>,
 }
 
 pub const EXACT_BOUND_F64: f64 = 1125899906842624.0; // 2^50
 pub const EXACT_BOUND_F32: f64 = 16777216.0; // 2^24
 
+/// Set (before any run starts) by the cross-build check so that both builds apply the same guards.
+pub static FORCE_F32_BOUND: std::sync::atomic::AtomicBool = std::sync::atomic::AtomicBool::new(false);
+
 pub fn exact_bound() -> f64 {
-    if cfg!(feature = "f32") {
+    if cfg!(feature = "f32") || FORCE_F32_BOUND.load(std::sync::atomic::Ordering::Relaxed) {
         EXACT_BOUND_F32
     } else {
         EXACT_BOUND_F64
@@ -181,8 +204,31 @@ pub fn tol_k() -> f64 {
     }
 }
 
-fn all_integral(v: &[f64]) -> bool {
-    v.iter().all(|x| (x * 2.0).fract() == 0.0)
+/// Number of fractional binary digits of a dyadic value (capped).
+pub fn frac_bits(x: f64) -> u32 {
+    let mut k = 0;
+    let mut y = x.abs();
+    while y.fract() != 0.0 && k < 64 {
+        y *= 2.0;
+        k += 1;
+    }
+    k
+}
+
+pub fn max_frac(v: &[f64]) -> u32 {
+    v.iter().map(|x| frac_bits(*x)).max().unwrap_or(0)
+}
+
+fn op_const_frac(op: &Op) -> u32 {
+    match op {
+        Op::Scale(k) | Op::Axpy(k) => frac_bits(*k),
+        Op::Custom { coef, .. } => max_frac(coef),
+        _ => 0,
+    }
+}
+
+fn pow2(k: u32) -> f64 {
+    (2.0f64).powi(k.min(1000) as i32)
 }
 
 impl Sim {
@@ -215,6 +261,7 @@ impl Sim {
             train_first_layer: None,
             train_param_count: 0,
             protected: BTreeSet::new(),
+            status_log: Vec::new(),
         }
     }
 
@@ -335,7 +382,8 @@ impl Sim {
     fn check_grads_unchanged(&mut self, now: &BTreeMap<usize, Option<Obs>>, except: &BTreeSet<usize>, what: &'static str) {
         let mut bad = Vec::new();
         for (n, g) in now {
-            if except.contains(n) {
+            // live model parameters seen through an observer's handle change with the training loop
+            if except.contains(n) || self.protected.contains(n) {
                 continue;
             }
             match self.grad_obs.get(n) {
@@ -440,7 +488,7 @@ impl Sim {
             return Err(format!("length {} vs {}", got.len(), want.len()));
         }
         let bound = exact_bound();
-        let exact = self.cfg.regime == Regime::Int && all_integral(want) && mag.iter().all(|m| *m <= bound) && want.iter().all(|m| m.abs() <= bound);
+        let exact = self.cfg.regime == Regime::Int && mag.iter().all(|m| *m <= bound) && want.iter().all(|m| m.abs() <= bound) && want.iter().all(|w| ((*w as Float) as f64) == *w);
         if exact {
             self.cnt.exact_compares += 1;
             for i in 0..got.len() {
@@ -479,6 +527,7 @@ impl Sim {
             StepOut::Skipped(_) => self.cnt.skipped += 1,
             StepOut::Dead => {}
         }
+        self.status_log.push(status_code(&out));
         self.digest.str(ev.kind());
         self.digest.u64(match &out {
             StepOut::Done => 1,
@@ -797,6 +846,17 @@ impl Sim {
             self.cnt.magnitude_guard += 1;
             return StepOut::Skipped("magnitude guard");
         }
+        if self.cfg.regime == Regime::Int {
+            // every partial sum the kernel can form stays exactly representable
+            let absv: Vec<Vec<refmodel::AbsF>> = argv.iter().map(|a| a.1.iter().map(|x| refmodel::AbsF(x.abs())).collect()).collect();
+            let absa: Vec<(&[usize], &[refmodel::AbsF])> = argv.iter().zip(&absv).map(|(a, v)| (a.0, &v[..])).collect();
+            let m = refmodel::eval::<refmodel::AbsF>(op, &absa);
+            let k: u32 = argv.iter().map(|a| max_frac(a.1)).sum::<u32>() + op_const_frac(op);
+            if m.iter().any(|x| !(x.0 * pow2(k) <= exact_bound())) {
+                self.cnt.magnitude_guard += 1;
+                return StepOut::Skipped("magnitude guard (partial sums)");
+            }
+        }
         let any_tracked = his.iter().any(|h| h.tracked);
 
         // Sum(0) returns a clone of the handle: same node.
@@ -871,10 +931,23 @@ impl Sim {
             }
         };
         let reach = self.g.reach(rn);
-        let adj = if self.cfg.monitors { self.g.adjoints(rn, &seed_vals) } else { BTreeMap::new() };
-        if self.cfg.monitors && self.cfg.regime == Regime::Int {
+        let adj = if self.cfg.monitors || self.cfg.guard_mag { self.g.adjoints(rn, &seed_vals) } else { BTreeMap::new() };
+        if (self.cfg.monitors || self.cfg.guard_mag) && self.cfg.regime == Regime::Int {
+            // integer data stays exact iff every partial sum the pass can form is representable:
+            // magnitude (with what is already stored) times the finest granularity of any term
             let bound = exact_bound();
-            if adj.values().any(|a| a.mag.iter().any(|m| *m > bound)) {
+            let k: u32 = reach.iter().map(|n| max_frac(&self.g.nodes[*n].vals) + self.g.nodes[*n].op.as_ref().map(op_const_frac).unwrap_or(0)).sum::<u32>() + max_frac(&seed_vals);
+            let stored = self.observe_grads();
+            let mut worst = 0.0f64;
+            let mut kb = 0u32;
+            for (n, a) in &adj {
+                let b = stored.get(n).and_then(|v| v[0].1.as_ref()).map(|o| o.vals()).unwrap_or_default();
+                kb = kb.max(max_frac(&b));
+                let bmax = b.iter().fold(0.0f64, |x, y| x.max(y.abs()));
+                let mmax = a.mag.iter().fold(0.0f64, |x, y| x.max(*y));
+                worst = worst.max(bmax + mmax);
+            }
+            if !(worst * pow2(k + kb) <= bound) {
                 self.cnt.magnitude_guard += 1;
                 return StepOut::Skipped("adjoint magnitude guard");
             }
@@ -1393,7 +1466,13 @@ impl Sim {
         }));
         self.obs_log.push(ObsRec { event: self.event_index, kind: if res.is_ok() { "retire_ok" } else { "retire_panic" }, slot, obs: None });
         let class = format!("{}{}", self.g.nodes[l].origin, if was_passed { " differentiated" } else { "" });
-        if self.g.nodes[l].has_graph {
+        if self.protected.contains(&l) {
+            // a live model parameter seen through an observer's handle: the layer holds it too
+            match res {
+                Ok(_) => self.cnt.retire_control_ok += 1,
+                Err(_) => self.cnt.retire_control_panics += 1,
+            }
+        } else if self.g.nodes[l].has_graph {
             // the property speaks about arrays from which results were derived; a result with its own
             // graph may legitimately share its buffer with its own derivative closure: control only
             match res {
